@@ -57,6 +57,7 @@ HUBS = ["channels are abstracted to identity + closed flag; the contents of a ch
         "sync.Once.Do runs its function at most once, at the call site; sync.Mutex operations are no-ops (sequential reasoning only)"]
 
 KESWARM = f("s/p2pkeswarm", "(*Swarm).getFullAddr$1$1", "(*Swarm).handleMessage$1$1", "(*Swarm).handleMessage", "(*Swarm).getFullAddr")
+QUICGLUE = f("s/quicswarm", "(*Swarm).withSession", "(*Swarm).serve", "(*Swarm).handleAsk", "(*Swarm).handleTells$1")
 DHT = f("p/kademlia", "dhtIterate", "DHTPut$1", "DHTGet$2", "DHTJoin", "DHTPut", "DHTGet", "DHTFindNode")
 IDS = f("", "(*PeerID).UnmarshalText") + f("f/x509", "EqualPublicKeys") + f("s/p2pkeswarm", "DefaultFingerprinter", "ParseAddr") + f("s/quicswarm", "DefaultFingerprinter", "ParseAddr")
 
@@ -66,7 +67,7 @@ PROPS = [
     dict(id="C01", functions=VEC + FRAG_WIRE + FRAG_AGG + FRAG_SEND + HDR + COLL + MB_SEND + QUEUE, assumptions=COMMON + BINARY + HUBS),
     dict(id="C02", functions=SESSION + READERS + f("p/p2pke", "(*Channel).Deliver$1", "(*Channel).Send$1"), assumptions=COMMON + CRYPTO),
     dict(id="C03", functions=SESSION + READERS, assumptions=COMMON + CRYPTO),
-    dict(id="C04", functions=KESWARM + f("p/p2pke", "(*Channel).checkKey", "(*Channel).onReadySession", "(*Channel).newResp"),
+    dict(id="C04", functions=KESWARM + QUICGLUE + f("p/p2pke", "(*Channel).checkKey", "(*Channel).onReadySession", "(*Channel).newResp"),
          assumptions=COMMON + CRYPTO + ["the channel table of p2pkeswarm (a map under a mutex) and p2pke.Channel's entry points are used through trusted / frame-assumed contracts",
                                         "fingerprinter and whitelist are arbitrary pure callbacks"]),
     dict(id="C05", functions=CHANNEL + f("p/p2pke", "(*Session).IsReady", "(*Session).Deliver", "NewSession"), assumptions=COMMON + CRYPTO),
@@ -81,9 +82,9 @@ PROPS = [
     dict(id="C13", functions=TELLHUB + ASKHUB + f("s/swarmutil", "(*Queue).Receive") + f("s/udpswarm", "(*Swarm).Receive"), assumptions=COMMON + HUBS + ["net.UDPConn.ReadFromUDP blocks on the socket only (no cancellation, no deadline set by the caller): model"]),
     dict(id="C15", functions=MUX + DISPATCH, assumptions=COMMON + BINARY + ["the channel table (sync.Map) only holds swarms built by newMuxedSwarm: trusted contract on muxCore.getSwarm"]),
     dict(id="C16", level="exploration", functions=[],
-         bounded=["c16:s/udpswarm:udpswarm.go.txt", "c16:s/sshswarm:sshswarm.go.txt", "c16:s/quicswarm:nested.go.txt:quicswarm", "c16:s/p2pkeswarm:nested.go.txt:p2pkeswarm"],
+         bounded=["c16:s/udpswarm:udpswarm.go.txt", "c16:s/sshswarm:sshswarm.go.txt", "c16:s/quicswarm:nested.go.txt:quicswarm", "c16:s/p2pkeswarm:nested.go.txt:p2pkeswarm", "c16:s/multiswarm:multiswarm.go.txt"],
          assumptions=["BOUNDED stand-in, not a proof: the round-trip clause is executed on the real marshal / parse functions over the finite domains stated per stand-in (harnesses under /verif/bounded/c16, injected with go test -overlay)",
-                      "the parsers go through net/netip, regexp, strconv, base64 and fmt, which cannot be brought under contracts here; multiswarm, memswarm and vswarm addresses are not covered"]),
+                      "the parsers go through net/netip, regexp, strconv, base64 and fmt, which cannot be brought under contracts here; memswarm and vswarm addresses are not covered"]),
     dict(id="C17", functions=IDS, assumptions=COMMON + ["encoding/base64 Decode/Encode write only their destination; EncodedLen/DecodedLen are pure (assumed)",
          "x509.MarshalPublicKey (ASN.1) is behind a trusted contract: the marshal/parse round trip is not decided",
          "crypto/subtle.ConstantTimeCompare returns 1 exactly for equal byte strings (model)"]),
